@@ -557,6 +557,37 @@ theorem sync_process_effect (body : Stmt) (acc : Env) (hC : EnvN ctx cur) (hA : 
     · rename_i hm; exact (hown i b hi hb hm).symm
     · rfl
 
+include hok in
+/-- **The active edge with the domain's reset asserted.** Every driven bit (masked bit) of a resettable signal the
+process drives takes its initial value; reset-less signals behave as without reset (`process_bits`); unmasked bits
+keep what the other processes left. -/
+theorem sync_reset_bits (inits : Env) (hI : EnvN ctx inits) (rl : List Bool) (r : Int) (hr : (pyAnd 1 r != 0) = true)
+    (body : Stmt) (acc : Env) (hC : EnvN ctx cur) (hA : EnvN ctx acc)
+    (htg : ∀ e ∈ stmtTargets body, e.twf ctx = true ∧ e.noAlias ctx cur)
+    (i b : Nat) (hi : i < ctx.length) (hb : b < (ctx.shape i).width) :
+    bitAt (commitInto ctx body (syncNext ctx inits rl (some r) body cur) acc) i b =
+      if (stmtSigs body).contains i && !(rl.getD i false) then
+        (if ibit ((stmtMask ctx body (List.replicate ctx.length 0)).get i) b then bitAt inits i b else bitAt acc i b)
+      else bitAt (commitInto ctx body (execRtl ctx cur body cur) acc) i b := by
+  have hz : MaskOk ctx (List.replicate ctx.length 0) := by
+    intro j; rw [replicate_get, Shape.contains_u]; exact ⟨Int.le_refl _, two_pow_pos' _⟩
+  have htabok := stmtMask_ok ctx body _ hz
+  have hval : ∀ nxt : Env, (commitInto ctx body nxt acc).val i =
+      commitMask (ctx.shape i) (acc.val i) (nxt.val i) ((stmtMask ctx body (List.replicate ctx.length 0)).get i) := by
+    intro nxt; unfold commitInto; simp only; rw [val_map_range _ _ _ hi]
+  have hnext : (syncNext ctx inits rl (some r) body cur).val i =
+      if (stmtSigs body).contains i && !(rl.getD i false) then inits.val i else (execRtl ctx cur body cur).val i := by
+    unfold syncNext
+    simp only [hr, if_true]
+    exact val_map_range _ _ _ hi
+  unfold bitAt
+  rw [hval, hnext]
+  by_cases hres : ((stmtSigs body).contains i && !(rl.getD i false)) = true
+  · simp only [hres, if_true]
+    exact (commitMask_bits (ctx.shape i) (hA.ok i hi).1 _ _ _ (hA.ok i hi).2 (hI.ok i hi).2 (htabok i)).2 b hb
+  · simp only [hres, Bool.false_eq_true, if_false]
+    rw [hval]
+
 end
 
 end Amaranth
